@@ -410,3 +410,117 @@ harness! { fn fd_reuse_truncated_checksum() { reuse(&SK_RLE3_RAW2_CK, 3, 17, &SK
 harness! { fn fd_reuse_truncated_header() { reuse(&SK_RLE3_RAW2_CK, 3, 5, &SK_RAW4_CK); } }
 harness! { fn fd_reuse_larger_window() { reuse(&SK_RAW1, 0, 0, &SK_WD_RLE3_RAW2); } }
 harness! { fn fd_reuse_smaller_window() { reuse(&SK_WD_RLE3_RAW2, 1, 0, &SK_LYING_RAW3_RLE3_RAW2_CK); } }
+
+// ------------------------------------------------------------------------------------------------ C11 window limit
+fn rfc_window(wd: u8) -> u64 { let base = 1u64 << (10 + (wd >> 3) as u64); base + (base / 8) * ((wd & 7) as u64) }
+const RFC_MAX_WINDOW: u64 = (1u64 << 41) + 7 * (1u64 << 38);
+
+// arithmetic core, complete: check_window_size for all (window, max); set_max_window_size clamps
+harness! { fn c11_check_window_size_all() {
+    let w: u64 = nd::any(); let m: u64 = nd::any();
+    match FrameDecoderState::check_window_size(w, m) {
+        Ok(()) => assert!(w <= m, "window above the limit accepted"),
+        Err(FrameDecoderError::WindowSizeTooBig { requested, max }) => { assert!(w > m, "window at or below the limit refused"); assert!(requested == w && max == m, "limits misreported"); }
+        Err(e) => { core::mem::forget(e); assert!(false, "unexpected error kind"); }
+    }
+    let mut dec = FrameDecoder::new();
+    assert!(dec.max_window_size() == 128 * 1024 * 1024, "default limit");
+    let x: u64 = nd::any();
+    dec.set_max_window_size(x);
+    assert!(dec.max_window_size() == if x < RFC_MAX_WINDOW { x } else { RFC_MAX_WINDOW }, "limit not clamped to the format maximum");
+    nd_cover!(w == m, "boundary");
+    core::mem::forget(dec);
+} }
+
+/// six-byte header with window descriptor `wd`
+fn window_header(wd: u8) -> ArrSrc {
+    let mut f = [0u8; MAXF + 4];
+    f[0] = 0x28; f[1] = 0xB5; f[2] = 0x2F; f[3] = 0xFD; f[4] = 0; f[5] = wd;
+    ArrSrc { data: f, pos: 0, len: 6, chunk: usize::MAX, failed: false, prune: false }
+}
+
+fn check_limit_outcome(r: Result<(), FrameDecoderError>, win: u64, eff: u64) -> bool {
+    match r {
+        Ok(()) => { assert!(win <= eff, "frame above the limit accepted"); assert!(win <= RFC_MAX_WINDOW); true }
+        Err(FrameDecoderError::WindowSizeTooBig { requested, max }) => {
+            assert!(win > eff, "frame at or below the limit refused");
+            assert!(requested == win && max == eff, "requested/effective limits misreported");
+            false
+        }
+        Err(e) => { core::mem::forget(e); assert!(win > RFC_MAX_WINDOW, "legal window refused"); false }
+    }
+}
+
+/// Ordering fact "refused before any window-sized allocation", decided on concrete (descriptor, limit) cases for the four
+/// entry paths; the arithmetic itself is decided for ALL values by c11_check_window_size_all / window_size_all_descriptors.
+/// PATH 0: first frame on a new decoder, 1: later frame on a used decoder, 2: StreamingDecoder::new_with_max_window_size,
+/// 3: decode_all.  limit None = default limit.  Ring allocation is stubbed in ghost mode for the frame under test.
+fn limit_case(path: u8, wd: u8, limit: Option<u64>) {
+    nd::set_stub_arg(0, 17); nd::set_stub_arg(1, 0); nd::set_ghost(5, 0);
+    let eff = match limit { None => 128 * 1024 * 1024, Some(l) => if l < RFC_MAX_WINDOW { l } else { RFC_MAX_WINDOW } };
+    let win = rfc_window(wd);
+    let mut dec = FrameDecoder::new();
+    let fa = build(&SK_RAW1);
+    if path == 1 {
+        let mut s = src_of(&fa, fa.flen, usize::MAX);
+        ok_or_fail!(dec.reset(&mut s), "A refused");
+        ok_or_fail!(dec.decode_blocks(&mut s, BlockDecodingStrategy::All), "A refused");
+    }
+    nd::set_stub_arg(1, 1);
+    if let Some(l) = limit { dec.set_max_window_size(l); }
+    assert!(dec.max_window_size() == eff);
+    let mut src = window_header(wd);
+    let ok = match path {
+        0 | 1 => check_limit_outcome(dec.reset(&mut src), win, eff),
+        2 => {
+            let r = match limit {
+                Some(l) => crate::decoding::StreamingDecoder::new_with_max_window_size(src, l),
+                None => crate::decoding::StreamingDecoder::new(src),
+            };
+            match r { Ok(sd) => { core::mem::forget(sd); check_limit_outcome(Ok(()), win, eff) } Err(e) => check_limit_outcome(Err(e), win, eff) }
+        }
+        _ => {
+            let input: [u8; 6] = [0x28, 0xB5, 0x2F, 0xFD, 0, wd];
+            let mut out = [0u8; 4];
+            match dec.decode_all(&input[..], &mut out[..]) {
+                Ok(_) => { assert!(false, "a frame without blocks cannot decode"); false }
+                Err(FrameDecoderError::WindowSizeTooBig { requested, max }) => check_limit_outcome(Err(FrameDecoderError::WindowSizeTooBig { requested, max }), win, eff),
+                // accepted by the gate, fails later because the input has no blocks
+                Err(e) => { core::mem::forget(e); assert!(win <= eff, "frame above the limit not refused with WindowSizeTooBig"); true }
+            }
+        }
+    };
+    assert!(ok == (win <= eff));
+    if !ok {
+        assert!(nd::ghost(5) == 0, "window memory requested for a refused frame");
+        if path == 1 {
+            // the earlier frame's state is untouched
+            assert!(dec.is_finished() && dec.content_size() == 1 && dec.bytes_read_from_source() == fa.flen as u64 && dec.can_collect() == 1, "refused frame disturbed the decoder state");
+        }
+    } else if path == 1 {
+        assert!(!dec.is_finished() && dec.content_size() == 0 && dec.bytes_read_from_source() == 6 && dec.can_collect() == 0);
+        assert!(nd::ghost(5) >= 1 || win <= 16, "accepted frame did not reserve its window");
+    }
+    nd_cover!(true, "case completed");
+    core::mem::forget(dec);
+}
+macro_rules! limit_harness { ($name:ident, $path:expr, $wd:expr, $limit:expr) => { harness! { fn $name() { limit_case($path, $wd, $limit); } } }; }
+// 0x00: 1 KiB; 0x88: 128 MiB (= default limit); 0x89: 144 MiB; 0xFF: the format maximum
+limit_harness!(c11_limit_case_first_1k_default, 0, 0x00, None);
+limit_harness!(c11_limit_case_first_128m_default, 0, 0x88, None);
+limit_harness!(c11_limit_case_first_144m_default, 0, 0x89, None);
+limit_harness!(c11_limit_case_first_144m_raised, 0, 0x89, Some(u64::MAX));
+limit_harness!(c11_limit_case_first_1k_lowered, 0, 0x00, Some(1023));
+limit_harness!(c11_limit_case_first_ff_max, 0, 0xFF, Some(u64::MAX));
+limit_harness!(c11_limit_case_reuse_1k_default, 1, 0x00, None);
+limit_harness!(c11_limit_case_reuse_128m_default, 1, 0x88, None);
+limit_harness!(c11_limit_case_reuse_144m_default, 1, 0x89, None);
+limit_harness!(c11_limit_case_reuse_144m_raised, 1, 0x89, Some(u64::MAX));
+limit_harness!(c11_limit_case_reuse_1k_lowered, 1, 0x00, Some(1023));
+limit_harness!(c11_limit_case_reuse_ff_max, 1, 0xFF, Some(u64::MAX));
+limit_harness!(c11_limit_case_stream_144m_default, 2, 0x89, None);
+limit_harness!(c11_limit_case_stream_144m_raised, 2, 0x89, Some(1 << 28));
+limit_harness!(c11_limit_case_stream_1k_lowered, 2, 0x00, Some(1023));
+limit_harness!(c11_limit_case_all_144m_default, 3, 0x89, None);
+limit_harness!(c11_limit_case_all_128m_default, 3, 0x88, None);
+limit_harness!(c11_limit_case_all_1k_lowered, 3, 0x00, Some(1000));
